@@ -944,3 +944,236 @@ func TestGocvReplay(t *testing.T) {
 	}
 }
 `
+
+// ---------------------------------------------------------------------------
+// driver: schema.(*Value).ValueFrom — declared-type value clauses (C16): the model names the dynamic type and the
+// number; the replay stores that number in a value declared integer / float and reads it back (the property's own
+// oracle: a value survives storage unchanged).
+
+func init() {
+	intKinds := []string{"int", "int8", "int16", "int32", "int64", "uint", "uint8", "uint16", "uint32", "uint64"}
+	registerReplay(replayDriver{
+		name: "schema.Value.ValueFrom with a declared numeric type",
+		match: func(ob *Oblig) bool {
+			return ob.Class == "post" && strings.HasPrefix(ob.Func, "schema.(*Value).ValueFrom") &&
+				(strings.Contains(ob.Name, "declared-integer-keeps-every") || strings.Contains(ob.Name, "declared-float-value"))
+		},
+		terms: func(ob *Oblig) []ModelVar {
+			var out []ModelVar
+			if v := ob.inputTerm("value"); v != "" {
+				out = append(out, ModelVar{Name: "tag(value)", Term: "(i_tag " + v + ")"}, ModelVar{Name: "ival(value)", Term: "(i_val " + v + ")"})
+			}
+			return out
+		},
+		build: func(ob *Oblig, m map[string]string) (string, string, bool) {
+			c := ob.ctx
+			tg, ok := modelInt(m["tag(value)"])
+			if !ok {
+				return "", "", false
+			}
+			typ := ""
+			for _, k := range append(append([]string(nil), intKinds...), "float32", "float64") {
+				if id, ok := c.tags[k]; ok && int64(id) == tg {
+					typ = k
+				}
+			}
+			if typ == "" {
+				return "", "", false
+			}
+			declared, sample, want := "integer", "5", "int64(5)"
+			if strings.HasPrefix(typ, "float") {
+				declared, sample, want = "float", "1.5", "float64(1.5)"
+			} else if n, ok := modelInt(m["ival(value)"]); ok && n >= 0 && n <= 100 {
+				sample, want = fmt.Sprint(n), fmt.Sprintf("int64(%d)", n)
+			}
+			src := fmt.Sprintf(`package schema
+
+import "testing"
+
+// generated by gocv from the model of obligation %s
+func TestGocvReplay(t *testing.T) {
+	var arg any = %s(%s)
+	v := &Value{ItemType: ItemType(%q)}
+	v.ValueFrom(arg)
+	if got := v.ValueFor(); got != any(%s) {
+		t.Fatalf("a %s stored in a value declared %s reads back as %%#v (text %%q), want %%#v", got, v.ItemValue, any(%s))
+	}
+}
+`, ob.Name, typ, sample, declared, want, typ, declared, want)
+			return "schema", src, true
+		},
+	})
+}
+
+// ---------------------------------------------------------------------------
+// driver: distributeFlows (C03/C05) — the model gives the number of parked tokens and of outgoing flows; the replay
+// runs the real function on that many and checks the property's own statement: every parked token is answered exactly
+// once, every outgoing flow is handed out exactly once, pre-selected, and the surplus tokens are consumed.
+
+func init() {
+	registerReplay(replayDriver{
+		name: "bpmn.distributeFlows on N parked tokens and M outgoing flows",
+		match: func(ob *Oblig) bool {
+			return (ob.Class == "post" || ob.Class == "inv-keep" || ob.Class == "panic") && strings.HasPrefix(ob.Func, "bpmn.distributeFlows")
+		},
+		terms: func(ob *Oblig) []ModelVar {
+			var out []ModelVar
+			if v := ob.inputTerm("awaitingActions"); v != "" {
+				out = append(out, ModelVar{Name: "N", Term: "(s_len " + v + ")"})
+			}
+			if v := ob.inputTerm("sequenceFlows"); v != "" {
+				out = append(out, ModelVar{Name: "M", Term: "(s_len " + v + ")"})
+			}
+			return out
+		},
+		build: func(ob *Oblig, m map[string]string) (string, string, bool) {
+			n, ok1 := modelInt(m["N"])
+			mm, ok2 := modelInt(m["M"])
+			if !ok1 || !ok2 || n < 0 || mm < 0 || n > 20000 || mm > 20000 {
+				return "", "", false
+			}
+			src := fmt.Sprintf(`package bpmn
+
+import (
+	"testing"
+	"time"
+)
+
+// generated by gocv from the model of obligation %s
+func TestGocvReplay(t *testing.T) {
+	const n, m = %d, %d
+	chans := make([]chan IAction, n)
+	for i := range chans {
+		chans[i] = make(chan IAction, 4)
+	}
+	flows := make([]*SequenceFlow, m)
+	for i := range flows {
+		flows[i] = new(SequenceFlow)
+	}
+	done := make(chan struct{})
+	go func() { defer close(done); distributeFlows(chans, flows) }()
+	select {
+	case <-done:
+	case <-time.After(2 * time.Second):
+		t.Fatal("distributeFlows did not return")
+	}
+	handed := map[*SequenceFlow]int{}
+	for i, ch := range chans {
+		if len(ch) != 1 {
+			t.Fatalf("parked token %%d of %%d was answered %%d times (outgoing flows: %%d)", i, n, len(ch), m)
+		}
+		switch a := (<-ch).(type) {
+		case flowAction:
+			if len(a.unconditionalFlows) != len(a.sequenceFlows) {
+				t.Fatalf("token %%d: %%d flows, %%d of them pre-selected", i, len(a.sequenceFlows), len(a.unconditionalFlows))
+			}
+			for k, idx := range a.unconditionalFlows {
+				if idx != k {
+					t.Fatalf("token %%d: pre-selected index %%d at position %%d", i, idx, k)
+				}
+				handed[a.sequenceFlows[idx]]++
+			}
+		case completeAction:
+		default:
+			t.Fatalf("token %%d: unexpected action %%T", i, a)
+		}
+	}
+	if n > 0 {
+		for i, f := range flows {
+			if handed[f] != 1 {
+				t.Fatalf("outgoing flow %%d of %%d was handed out %%d times to %%d parked tokens", i, m, handed[f], n)
+			}
+		}
+	}
+}
+`, ob.Name, n, mm)
+			return ".", src, true
+		},
+	})
+}
+
+// ---------------------------------------------------------------------------
+// driver: (*ProcessSet).triggerCatch$1 (C18) — the canceller must forget the listener it wakes: the replay registers a
+// listening catch event, wakes it, and lets a second throw for the same catch event arrive (which must be a no-op).
+
+func init() {
+	registerReplay(replayDriver{
+		modelFree: true,
+		name:      "bpmn.ProcessSet: a second throw for a catch event that was woken already",
+		match: func(ob *Oblig) bool {
+			return strings.HasPrefix(ob.Func, "bpmn.(*ProcessSet).triggerCatch$1") && strings.Contains(ob.Name, "listener-forgotten")
+		},
+		build: func(ob *Oblig, m map[string]string) (string, string, bool) {
+			src := fmt.Sprintf(`package bpmn
+
+import "testing"
+
+// generated by gocv for obligation %s
+func TestGocvReplay(t *testing.T) {
+	ps := &ProcessSet{catchCh: map[string]chan struct{}{"catchC": make(chan struct{})}}
+	wake, ok := ps.triggerCatch("catchC")
+	if !ok {
+		t.Fatal("the registered catch event was not found")
+	}
+	wake()
+	defer func() {
+		if r := recover(); r != nil {
+			t.Fatalf("a second throw for a catch event that was woken already: %%v", r)
+		}
+	}()
+	if again, ok := ps.triggerCatch("catchC"); ok {
+		again()
+		t.Fatalf("the woken catch event is still registered as listening")
+	}
+}
+`, ob.Name)
+			return ".", src, true
+		},
+	})
+}
+
+// ---------------------------------------------------------------------------
+// driver: (*Sno).RestoreIdGenerator (C20) — a generator that is not restored from a snapshot must draw a partition of
+// its own: two generators created from empty bytes, one identifier each, must differ in their partition.
+
+func init() {
+	registerReplay(replayDriver{
+		modelFree: true,
+		name:      "pkg/id: two generators created without a snapshot",
+		match: func(ob *Oblig) bool {
+			return strings.HasPrefix(ob.Func, "pkg/id.(*Sno).RestoreIdGenerator") && strings.Contains(ob.Name, "draws-its-own-partition")
+		},
+		build: func(ob *Oblig, m map[string]string) (string, string, bool) {
+			src := fmt.Sprintf(`package id
+
+import (
+	"context"
+	"testing"
+
+	"github.com/olive-io/bpmn/v2/pkg/tracing"
+)
+
+// generated by gocv for obligation %s
+func TestGocvReplay(t *testing.T) {
+	ctx, cancel := context.WithCancel(context.Background())
+	defer cancel()
+	tracer := tracing.NewTracer(ctx)
+	g1, err := GetSno().RestoreIdGenerator(ctx, nil, tracer)
+	if err != nil {
+		t.Fatal(err)
+	}
+	g2, err := GetSno().RestoreIdGenerator(ctx, []byte{}, tracer)
+	if err != nil {
+		t.Fatal(err)
+	}
+	p1 := g1.(*SnoGenerator).Generator.Partition()
+	p2 := g2.(*SnoGenerator).Generator.Partition()
+	if p1 == p2 {
+		t.Fatalf("two generators created without a snapshot share partition %%v: their identifiers collide whenever they draw in the same time unit", p1)
+	}
+}
+`, ob.Name)
+			return "pkg/id", src, true
+		},
+	})
+}
